@@ -164,6 +164,7 @@ pub enum Focus {
     Conditions, // C15
     Slicing,   // C16
     Path,      // C17
+    PathCost,  // C17: path searches whose only condition passes on about half of the elements (cost 1 / 2 routes)
     Elements,  // C18
     Mixed,
 }
@@ -192,7 +193,7 @@ pub fn search_event(rng: &mut Rng, view: &SearchView, dbs: &[&DbX], keys: &[DbVa
         QueryId::Id(DbId(id))
     };
     let alg_pick = match focus {
-        Focus::Path => 3,
+        Focus::Path | Focus::PathCost => 3,
         Focus::Elements => 2,
         Focus::Slicing => rng.below(4),
         _ => rng.below(2),
@@ -221,7 +222,14 @@ pub fn search_event(rng: &mut Rng, view: &SearchView, dbs: &[&DbX], keys: &[DbVa
     };
     let mut conds_j: Vec<Value> = vec![];
     let want_conds = match focus { Focus::Traversal => false, Focus::Conditions => true, _ => rng.chance(1, 2) };
-    if want_conds && !keys.is_empty() {
+    if focus == Focus::PathCost && !keys.is_empty() {
+        // one plain key == value condition: every element either passes (cost 1) or not (cost 2), none is unusable
+        let key: DbValue = if rng.chance(4, 5) { "k".into() } else { rng.pick(keys).clone() };
+        let v = DbValue::I64(rng.below(2) as i64);
+        conds_j = vec![json!({"l": "and", "m": "none", "d": {"t": "kv", "k": venc(&key), "c": "eq", "v": venc(&v)}})];
+        q.conditions = vec![QueryCondition { logic: QueryConditionLogic::And, modifier: QueryConditionModifier::None,
+                                             data: QueryConditionData::KeyValue(KeyValueComparison { key, value: Comparison::Equal(v) }) }];
+    } else if want_conds && !keys.is_empty() {
         let mut g = CondGen { rng, all: all.clone(), aliases: view.aliases.to_vec(), keys: keys.to_vec(), cross_type,
                               no_distance: alg == "path" || alg == "elements" };
         let (cs, js) = g.conds(2);
@@ -244,9 +252,14 @@ pub fn search_event(rng: &mut Rng, view: &SearchView, dbs: &[&DbX], keys: &[DbVa
     }
     let head = json!({"ev": "Search", "alg": alg, "dir": dir, "origin": origin_j, "dest": dest_j, "conds": conds_j,
                       "limit": q.limit, "offset": q.offset, "order": order_j});
+    finish_search(head, &q, dbs)
+}
+
+/// runs the query (plain / ordered / sliced layers) on every variant and completes the Search event
+pub fn finish_search(head: Value, q: &SearchQuery, dbs: &[&DbX]) -> Value {
     let mut outs: Vec<Value> = vec![];
     for db in dbs {
-        outs.push(match guarded(|| run3(db, &q)) { Ok(v) => v, Err(p) => json!({"ok": "panic", "msg": p}) });
+        outs.push(match guarded(|| run3(db, q)) { Ok(v) => v, Err(p) => json!({"ok": "panic", "msg": p}) });
     }
     let first = outs.remove(0);
     if first["ok"] == "panic" {
@@ -257,4 +270,74 @@ pub fn search_event(rng: &mut Rng, view: &SearchView, dbs: &[&DbX], keys: &[DbVa
     }
     let others: Vec<Value> = outs.iter().map(|o| json!({"ok": o["ok"], "res": o["res"]})).collect();
     merge(merge(head, first), json!({"others": others}))
+}
+
+/// C17, bounded-exhaustive: the family of graphs with TWO parallel routes from node 1 to node 2, of a and b edges
+/// (1 <= a, b <= max_edges), every interior element (edges and intermediate nodes) labelled k = 0 or 1 in ALL
+/// combinations, searched with the condition k == 1: the cheaper route is not always the shorter one.
+/// Each case is one run of the trace: Reset, Observe, InsertNodes, InsertEdges ..., Search - decided by DbSearch!PathOk.
+pub fn path_family(args: &vcore::Args) {
+    use crate::hist::observe_all_pub;
+    let max_edges = args.num("max-edges", 3) as usize;
+    let out = args.str("out", "/verif/harness/target/scratch/pathfam.ndjson");
+    let first = args.num("first", 0);
+    let count = args.num("programs", u64::MAX);
+    let mut trace = vcore::Trace::create(&out);
+    let mut case = 0u64;
+    let mut done = 0u64;
+    for a in 1..=max_edges {
+        for b in 1..=max_edges {
+            let na = 2 * a - 1; // interior elements of route A: edge, node, edge, ...
+            let nb = 2 * b - 1;
+            for labels in 0..(1u32 << (na + nb)) {
+                case += 1;
+                if case <= first || done >= count { continue; }
+                done += 1;
+                let mut db = crate::dbx::open(crate::dbx::Kind::Memory, "pathfam").unwrap();
+                trace.emit(json!({"ev": "Reset", "profile": "path_family", "run": case, "variants": ["memory"]}));
+                trace.emit(observe_all_pub(&db));
+                let lab = |i: usize| -> i64 { ((labels >> i) & 1) as i64 };
+                // nodes: 1 = origin, 2 = destination (both pass), then the intermediate nodes of A and of B
+                let mut node_vals: Vec<Vec<DbKeyValue>> = vec![vec![("k", 1_i64).into()], vec![("k", 1_i64).into()]];
+                for i in 0..(a - 1) { node_vals.push(vec![("k", lab(2 * i + 1)).into()]); }
+                for i in 0..(b - 1) { node_vals.push(vec![("k", lab(na + 2 * i + 1)).into()]); }
+                let mut run_mq = |db: &mut DbX, q: MQ, trace: &mut vcore::Trace| {
+                    let r = crate::dbx::exec_mq(db, &q);
+                    trace.emit(merge(merge(q.event(), q.outcome(&r)), json!({"others": []})));
+                };
+                run_mq(&mut db, MQ::InsertNodes(InsertNodesQuery { count: 0, values: QueryValues::Multi(node_vals), aliases: vec![], ids: QueryIds::Ids(vec![]) }), &mut trace);
+                let route = |first_mid: i64, n_edges: usize| -> Vec<(i64, i64)> {
+                    let mut nodes = vec![1i64];
+                    for i in 0..(n_edges - 1) { nodes.push(first_mid + i as i64); }
+                    nodes.push(2);
+                    nodes.windows(2).map(|w| (w[0], w[1])).collect()
+                };
+                let mut edges: Vec<((i64, i64), i64)> = vec![];
+                for (i, e) in route(3, a).into_iter().enumerate() { edges.push((e, lab(2 * i))); }
+                for (i, e) in route(3 + (a as i64 - 1), b).into_iter().enumerate() { edges.push((e, lab(na + 2 * i))); }
+                for ((f, t), k) in edges {
+                    run_mq(&mut db, MQ::InsertEdges(InsertEdgesQuery {
+                        from: QueryIds::Ids(vec![QueryId::Id(DbId(f))]), to: QueryIds::Ids(vec![QueryId::Id(DbId(t))]), ids: QueryIds::Ids(vec![]),
+                        values: QueryValues::Single(vec![("k", k).into()]), each: false }), &mut trace);
+                }
+                trace.emit(observe_all_pub(&db));
+                let key: DbValue = "k".into();
+                let v = DbValue::I64(1);
+                let q = SearchQuery {
+                    algorithm: SearchQueryAlgorithm::BreadthFirst, origin: QueryId::Id(DbId(1)), destination: QueryId::Id(DbId(2)), limit: 0, offset: 0,
+                    order_by: vec![],
+                    conditions: vec![QueryCondition { logic: QueryConditionLogic::And, modifier: QueryConditionModifier::None,
+                                                      data: QueryConditionData::KeyValue(KeyValueComparison { key: key.clone(), value: Comparison::Equal(v.clone()) }) }],
+                };
+                let head = json!({"ev": "Search", "alg": "path", "dir": "fwd", "origin": ["i", 1], "dest": ["i", 2],
+                                  "conds": [{"l": "and", "m": "none", "d": {"t": "kv", "k": venc(&key), "c": "eq", "v": venc(&v)}}],
+                                  "limit": 0, "offset": 0, "order": []});
+                trace.emit(finish_search(head, &q, &[&db]));
+            }
+        }
+    }
+    trace.flush();
+    println!("{}", json!({"first": first, "programs": done, "cases_total": case, "searches": done, "searches_nontrivial": done, "mutations": 0,
+                          "mutations_failed": 0, "transactions": 0, "transactions_rolled_back": 0, "reads": done, "maintenance_ops": 0,
+                          "distinct_mutation_events": done}));
 }
